@@ -140,6 +140,8 @@ def proof_part(prop, tier, rep):
     pid = prop.pid
     obl = L.obligations(pid)
     rep.obligations = obl
+    # modules the audit file imports besides Props/Cxx.lean (obligations.json "_imports") are targets too
+    prop.lean_targets = list(prop.lean_targets) + [m for m in L.extra_modules(pid) if m not in prop.lean_targets]
     rep.checker_cmd = (f"cd lean && lake build {' '.join(prop.lean_targets)} driver && "
                        f"lake env lean Abmarl/Audit/{pid}.lean  # + forbidden-construct grep"
                        + ("; lake env leanchecker " + " ".join(prop.lean_targets) if tier == "thorough" else ""))
